@@ -126,14 +126,21 @@ def make_body_read(tag, vary):
     boundary, parts, epi, body = G.corpus_body(tag)
     n = len(body)
 
+    lens = list(range(1, n + 1))
+
     def q(v: int):
+        frags = []
         if vary == "buffer":
             assume(1 <= v <= n + 1)
             b, cl = int(v), n
+        elif vary.startswith("short"):
+            # the server's read() returns fewer bytes than asked for, once, after v bytes (every v); afterwards full reads
+            assume(0 <= v < n)
+            b, cl, frags = (n + 1 if vary == "short" else 7), n, [lens[v]]
         else:
             assume(0 <= v <= n)
             b, cl = 3, int(v)
-        s = stubs.SymStream(n, [], data=body)
+        s = stubs.SymStream(n, frags, data=body)
         m = MultipartMarkup(boundary)
         body_mixin._body_read(s.read, b, content_length=cl, markup=m)
         got = [(x, tuple(r)) for x, r in m.markups], (type(m.error).__name__ if m.error is not None else None)
@@ -194,10 +201,12 @@ def queries(tier):
                      "corpus body %r, every prefix length, every pair of cut positions" % tag,
                      timeout=250 if not T else 900, expect_cover=["ok"], family="cut2", config={"body": tag}))
     for tag in (["two", "hyph-bound"] if not T else [t for t, *_ in G.CORPUS]):
-        for vary in ("buffer", "length"):
+        for vary in ("buffer", "length", "short", "short7"):
             out.append(Q("body_read/%s/%s" % (tag, vary), make_body_read(tag, vary),
                          "corpus body %r streamed through _body_read: %s" % (tag, "every buffer size 1..len+1 (whole body)"
-                         if vary == "buffer" else "every Content-Length 0..len (prefixes), buffer 3"),
+                         if vary == "buffer" else "every Content-Length 0..len (prefixes), buffer 3" if vary == "length" else
+                         "the first read() returns only v bytes, every v in 1..len (short read of the server), buffer %s"
+                         % ("len+1" if vary == "short" else "7")),
                          timeout=150 if not T else 600, expect_cover=["ok"], family="body_read", config={"body": tag}))
     return out
 
